@@ -11,6 +11,7 @@
 # listed finding from anything else.
 import vf
 import screcv_common as sc
+import repotrace
 
 
 def body(run):
@@ -61,6 +62,8 @@ def body(run):
         run.violation("%s:recorded-trace-not-a-behaviour-of-the-specification" % run.prop.lower(),
                       "TLC rejects the recorded receiver events (see out/log/%s)" % run.prop)
 
+    if not run.quick():
+        repotrace.validate(run, side="recv")   # family T: recv.chunk traces of the repository's own tests (design/T.md)
     run.cov["behaviours_generated"] = len(behs) + len(wrap)
     run.cov["rule"] = ("one case per (TLC behaviour with at least one adversary move, policy, mode, receiving side); "
                        "class = receiver x policy x mode x multiset of (move, chunk kind, specified outcome)")
